@@ -100,6 +100,11 @@ def worker(job):
         if op.startswith("getbulk") and cfg.version == "v1":
             op = op.replace("getbulk", "getnext")
         retry = op.endswith("_retry")
+        if si % 9 == 4:
+            # an earlier walk on the same session, left after its first item with the rest of its batch unread: nothing of
+            # it may surface in the walk under test
+            st.update(script=[[(2, "int"), (3, "int"), (4, "int")]], ex=[], serial=si * 100 + 50, drop_at=None, dropped=False)
+            drv.call("getnext" if cfg.version == "v1" else "getbulk", B.oid_text(BASE), limit=1)
         st.update(script=script, ex=[], serial=si * 100, drop_at=(1 + si % 2) if retry else None, dropped=False)
         out = drv.call(op, B.oid_text(BASE), limit=60)
         if retry:
